@@ -23,7 +23,7 @@ class FakeOpenAI:
         self.sock.bind(("127.0.0.1", 0))
         self.sock.listen(256)
         self.port = self.sock.getsockname()[1]
-        self.behaviour = {}     # key -> {"reply": text} | {"fault": name} ; optional "delay"
+        self.behaviour = {}     # key -> {"reply": text} | {"fault": name} | {"seq": [behaviour, ...]} ; optional "delay"
         self.requests = []      # recorded requests
         self.lock = threading.Lock()
         self.stop = False
@@ -101,8 +101,12 @@ class FakeOpenAI:
                     rec["parse_error"] = str(e)
                 rec["key"] = key
                 with self.lock:
+                    n_prev = sum(1 for r in self.requests if r.get("key") == key)
                     self.requests.append(rec)
                     beh = dict(self.behaviour.get(key) or {"reply": "OK"})
+                    if "seq" in beh:
+                        # scripted by arrival order: the n-th request carrying this key gets the n-th behaviour
+                        beh = dict(beh["seq"][min(n_prev, len(beh["seq"]) - 1)])
                 if beh.get("delay"):
                     import time
                     time.sleep(beh["delay"])
